@@ -281,6 +281,9 @@ def sys (conc : Bool) (chunkSize : Nat) (autoClear autoClean : Bool) (prog : Lis
     then the caller — so that the free run after a forced schedule terminates quickly -/
 def actors (s : CState) : List Nat := (List.range s.writers.length).map (· + 1) ++ [0]
 
+/-- `CleanUp`: `os.RemoveAll(m.dir)` -/
+def cleanUp (s : CState) : CState := { s with onDisk := 0, dirExists := false }
+
 /-- the caller has returned from every call of its program -/
 def finished (s : CState) : Bool := s.prog.isEmpty && s.pc == .idle
 
